@@ -1,6 +1,7 @@
 package otp
 
 import (
+	"net/url"
 	"strings"
 	"time"
 )
@@ -154,6 +155,69 @@ func verifH_C13_badsecret() {
 	}
 	if verifSymbolic() {
 		verifAssert(!verifDependsOn(err, "text"), "error-carries-no-byte-of-the-secret-text")
+	}
+}
+
+// Every other operation that is handed a secret and fails: parsing an otpauth URL (every refusal
+// cause), building one (missing issuer / account), random-secret generation for an unknown hash.
+//
+//verif:harness prop=C13 name=urlerrors
+//verif:cases quick which=0..9
+//verif:opt maxpaths=4000 unwind=400
+func verifH_C13_urlerrors() {
+	key := verifBytes("key", 10)
+	secret := verifEnc32(key)
+	which := verifCase("which")
+	var err error
+	if which >= 7 {
+		in := URLParam{Issuer: "Example", AccountName: "alice", Secret: secret, Digits: 6, Period: 30}
+		switch which {
+		case 7:
+			in.Issuer = ""
+			_, err = GenerateTOTPURL(in)
+		case 8:
+			in.AccountName = ""
+			_, err = GenerateHOTPURL(in)
+		case 9:
+			var out string
+			out, err = RandomSecret(Algorithm(3 + verifU8("alg")%250))
+			verifAssert(out == "", "no-result-with-error")
+		}
+	} else {
+		q := url.Values{}
+		q.Set("secret", secret)
+		u := &url.URL{Scheme: "otpauth", Host: "totp", Path: "/Example:alice", RawQuery: q.Encode()}
+		switch which {
+		case 0: // label without a colon
+			u.Path = "/alice@example.com"
+		case 1: // other scheme
+			u.Scheme = "https"
+		case 2: // other type
+			u.Host = "motp"
+		case 3: // unknown algorithm
+			q.Set("algorithm", "MD5")
+			u.RawQuery = q.Encode()
+		case 4: // digits that are not a number
+			q.Set("digits", "six")
+			u.RawQuery = q.Encode()
+		case 5: // period that is not a number
+			q.Set("period", "-1")
+			u.RawQuery = q.Encode()
+		case 6: // empty label
+			u.Path = "/"
+		}
+		var p *URLParam
+		p, err = ParseOTPAuthURL(u)
+		verifAssert(err == nil || p == nil, "no-result-with-error")
+	}
+	verifObserve("errnil", err == nil)
+	if err == nil {
+		return
+	}
+	if verifSymbolic() {
+		verifAssert(!verifDependsOn(err, "key"), "error-independent-of-secret")
+	} else {
+		verifAssert(!strings.Contains(err.Error(), secret), "error-independent-of-secret")
 	}
 }
 
